@@ -25,6 +25,8 @@ ASSUMPTIONS = [
     "one user type per name (the wire format identifies a user type by its name); fluent parameters are user-typed",
     "set_initial_value is only called with objects already added to the problem (otherwise Problem.kind itself fails "
     "an internal assertion: 'more initial values than state variables')",
+    "divisors inside generated expressions are non-zero constants (Problem.kind — evaluated by `==` — replaces static "
+    "fluents by their initial values and raises ZeroDivisionError on e.g. the metric x/x with x initially 0)",
     "expressions handed to the API are well-typed in themselves (ill-typed VALUES are well-typed expressions of a type "
     "the target does not accept); arity errors only at the top-level fluent of an effect / initial value",
     "quality metrics only mention actions of the problem they are added to (clone looks them up by name)",
